@@ -40,11 +40,19 @@ def averaging_rules(ctx, rule):
             and norm(s.value.left) == acc] + \
            [s for s in walk_no_nested(fn) if isinstance(s, ast.AugAssign)
             and isinstance(s.op, ast.Div) and norm(s.target) == acc]
+    if not divs:
+        # the quotient written where it is appended: `groups.append(acc / n)`
+        class _Quot:
+            def __init__(self, node):
+                self.value, self.targets, self.lineno = node, [node], node.lineno
+                self.col_offset, self._parent = node.col_offset, node._parent
+        divs = [_Quot(n) for n in walk_no_nested(fn) if isinstance(n, ast.BinOp) and isinstance(n.op, ast.Div)
+                and norm(n.left) == acc and isinstance(n._parent, ast.Call) and last_attr(n._parent) == 'append']
     if len(accums) != 1 or len(divs) != 1:
         raise AnalysisError('C08: expected one `acc += g` and one `acc / n` (found %d, %d)'
                             % (len(accums), len(divs)))
     accum, div = accums[0], divs[0]
-    divisor = div.value.right if isinstance(div, ast.Assign) else div.value
+    divisor = div.value.right if isinstance(div, ast.Assign) or not isinstance(div, ast.AST) else div.value
 
     # ------------------------------------------------------------------ R1
     ok, why = False, 'divisor is %s' % norm(divisor)
@@ -427,8 +435,14 @@ def run(ctx):
     tag_ok = False
     if conf_defs:
         alt = None
+        alt_field = None
         if len(conf_fields) == 2:
             alt = ast.parse(conf_fields[1][1], mode='eval').body
+            alt_field = alt
+        # the character may pass through a string method on its way (`.translate(table)`)
+        while isinstance(alt, ast.Call) and isinstance(alt.func, ast.Attribute) and not isinstance(
+                alt.func.value, ast.Constant):
+            alt = alt.func.value
         if alt is not None:
             defs0 = [s for s in walk_no_nested(rl.loop) if isinstance(s, ast.Assign)
                      and norm(s.targets[0]) == norm(alt)]
@@ -450,15 +464,23 @@ def run(ctx):
         want = dict(zip('123456789', 'ABCDEFGHI'))
         want.update({' ': 'A', 'A': 'A', 'B': 'B', 'Z': 'Z'})
         got = {}
+        # module-level tables the field may be passed through (str.maketrans(...))
+        menv = {}
+        for st in rl.mod.tree.body:
+            if isinstance(st, ast.Assign) and len(st.targets) == 1 and isinstance(st.targets[0], ast.Name):
+                v_ = ConstEval({}).ev(st.value)
+                if v_ is not UNKNOWN:
+                    menv[st.targets[0].id] = v_
         for ch, exp in want.items():
-            ev = ConstEval({alt.id: ch})
+            ev = ConstEval(dict(menv, **{alt.id: ch}))
             try:
                 ev.run(stmts)
-                got[ch] = ev.env.get(alt.id, UNKNOWN)
+                # ... the mapping statements, then the expression that is printed
+                got[ch] = ev.ev(alt_field) if alt_field is not None else ev.env.get(alt.id, UNKNOWN)
             except Exception:
                 got[ch] = UNKNOWN
         bad = {k: got[k] for k in want if got[k] != want[k]}
-        ctx.ob('C08.R5', 'name:digit-tags-are-letters', not bad and len(stmts) >= 1,
+        ctx.ob('C08.R5', 'name:digit-tags-are-letters', not bad,
                "alternate-location digits name the same conformations as letters: '1'..'9' -> "
                "'A'..'I', blank -> 'A', letters unchanged (constant folding of the %d mapping "
                "statements; wrong: %s)" % (len(stmts), bad), rl.mod,
